@@ -237,13 +237,39 @@ def judge(observed, vis, hid):
     return None
 
 
-def check_markup(markup, only=None):
+def is_extraction_error(e):
+    try:
+        from sharepoint2text.parsing.exceptions import ExtractionError
+        return isinstance(e, ExtractionError)
+    except Exception:  # noqa
+        return False
+
+
+def deep_docs():
+    """Element nesting deeper than the interpreter's recursion limit (the tree walker is recursive)."""
+    return ["<div>" * n + "<script>var HIDs = 1;</script><p>VISa</p><noscript>HIDn</noscript>" + "</div>" * n + "<p>VISb</p>" for n in (1200, 3000)]
+
+
+def builder_of(markup):
+    """How to rebuild a document that is too long to store verbatim."""
+    for i, d in enumerate(deep_docs()):
+        if d == markup:
+            return {"fn": "deep_docs", "index": i}
+    for i, d in enumerate(long_prefix_docs()):
+        if d == markup:
+            return {"fn": "long_prefix_docs", "index": i}
+    return None
+
+
+def check_markup(markup, only=None, skip=()):
     """-> failure dict or None.  Expected sets: html.parser's own events classified by the spec."""
     ev, vis, hid = expected(markup)
     body = markup
     for name, fn in WRAPPERS:
         if only and not any(o in name for o in only):
             continue
+        if any(o in name for o in skip):
+            continue        # recorded finding (known_findings.json) for this document through this entry point: replayed separately
         if "<title>" in markup and "epub" not in name:
             continue        # only the EPUB chapter keeps the <title> text with the chapter
         if "read_msg_format_mail" in name and not is_html_body(markup):
@@ -251,10 +277,13 @@ def check_markup(markup, only=None):
         try:
             out = fn(body)
         except Exception as e:  # noqa
+            if is_extraction_error(e):
+                continue        # the reader reported a failure (C01's surface): there is no extracted text to judge
             out = f"<{type(e).__name__}: {e}>"
         bad = judge(out, vis, hid)
         if bad:
-            return {"reproduced": True, "target": name, "inputs": {"markup": markup, "events": ev},
+            return {"reproduced": True, "target": name, "inputs": {"markup": markup if len(markup) < 4000 else markup[:300] + " ...", "events": ev[:40],
+                                                                  "markup_builder": builder_of(markup)},
                     "expected": f"every visible token {sorted(tokens(vis))} in the text, no removed token {sorted(tokens(hid))}",
                     "observed": f"{bad}; text={out[:300]!r}"}
     return None
@@ -455,6 +484,7 @@ def grammar():
         docs.append(f"<p>VISa</p><{r}>HIDa</{r}></{r}><p>VISb</p><{r}>HIDb</{r}><p>VISc</p>")
         docs.append(f"<p>VISa</p></{r}><p>VISb</p><{r}>HIDb</{r}><p>VISc</p></{r}><p>VISd</p>")
     docs += long_prefix_docs()
+    docs += deep_docs()
     return docs
 
 
@@ -496,6 +526,8 @@ def check_sequence(docs, only=None):
         try:
             outs = via_epub_book(docs) if "epub" in name else [fn(d) for d in docs]
         except Exception as e:  # noqa
+            if is_extraction_error(e):
+                continue
             outs = [f"<{type(e).__name__}: {e}>"] * len(docs)
         for i, (d, out) in enumerate(zip(docs, outs)):
             if "read_msg_format_mail" in name and not is_html_body(d):
@@ -524,16 +556,23 @@ def long_prefix_docs():
     return out
 
 
-def search(only=None, limit=None):
+def search(only=None, limit=None, known=()):
     global ROUTE_SAMPLE
     n = 0
     docs = grammar()
     ROUTE_SAMPLE = set(docs[::8]) | set(docs[-160:])
+    skip_for = {}
+    for k in known:          # [{"fn":..., "index":..., "only": [...]}]: documents of recorded findings
+        try:
+            for d_ in globals()[k["fn"]]():      # the whole family the recorded document belongs to
+                skip_for[d_] = tuple(k.get("only") or ("",))
+        except Exception:  # noqa
+            pass
     for d in docs:
         n += 1
         if limit and n > limit:
             break
-        bad = check_markup(d, only=only)
+        bad = check_markup(d, only=only, skip=skip_for.get(d, ()))
         if bad:
             bad["tried"] = n
             return bad
@@ -566,12 +605,16 @@ def find(req):
         only = ("read_html", "read_mhtml", "msg")
     else:
         only = None
+    kw = (req.get("witness") or {}) if req.get("known_finding") else {}
+    if kw.get("markup_builder"):
+        d = globals()[kw["markup_builder"]["fn"]]()[kw["markup_builder"]["index"]]
+        return check_markup(d, only=tuple(kw.get("only") or ()) or None) or {"reproduced": False, "note": "recorded document now agrees with the region spec"}
     if "msg_email_extractor" in ob:
-        for d in long_prefix_docs():          # directed: evidence position / removed-content length
+        for d in long_prefix_docs() + deep_docs():          # directed: evidence position / removed-content length / nesting depth
             bad = check_markup(d, only=only)
             if bad:
                 return bad
-    return search(only=only)
+    return search(only=only, known=req.get("known_docs") or ())
 
 
 def rerun(stored):
@@ -579,6 +622,9 @@ def rerun(stored):
     if inp.get("documents"):
         r = check_sequence(inp["documents"])
         return r or {"reproduced": False, "note": "stored document sequence now agrees with the region spec"}
+    if inp.get("markup_builder"):
+        d = globals()[inp["markup_builder"]["fn"]]()[inp["markup_builder"]["index"]]
+        return check_markup(d) or {"reproduced": False, "note": "stored document now agrees with the region spec"}
     if inp.get("markup"):
         r = check_markup(inp["markup"])
         return r or {"reproduced": False, "note": "stored markup now agrees with the region spec"}
